@@ -766,28 +766,8 @@ def _expect_violation(ctx, cfg, inv, label, **kw):
     return r
 
 
-def run(ctx):
-    quick = ctx.quick
-    ncpu = min(16, os.cpu_count() or 4)
-    f = facts.load(SCHEMA_VERSION)
-    import hed  # noqa  (imported once in the parent, workers are forked)
-    _schema()
-    ctx.rule = ("cases = (annotation tree x query) pairs: every tree with <= N nodes over {p-child ra, p-child rb, unrelated c, "
-                "the parent p, value tag v/x, group} x the query universe of MC_Query.tla (all queries with <= 1 operator "
-                "over 12 atoms and 3 wildcards, selected depth-2/3 shapes), concretised with real 8.3.0 tag families "
-                "(TLC-validated) in short/long/intermediate spelling; plus seeded random annotations (<= 12 nodes, depth <= 4) "
-                "x (A, B, C) law tuples over the real vocabulary judged by TLC in trace mode; plus every lexeme string "
-                "<= M tokens and random grammar texts with damaged brackets for the parser.  distinct = abstract "
-                "(tree, query) pair; non-trivial = the model says the query matches")
-    ctx.exhaustive = True
-    ctx.assumptions += [
-        "annotations are built from schema tags of HED 8.3.0 (no unknown tags, no definitions); empty groups included",
-        "completeness of && (it matches whenever both operands match via distinct tags) is NOT claimed by the "
-        "statement; disagreements there and on [ ], { }, {:}, ?, ~ are reported as spec drift",
-        "query texts are ASCII",
-    ]
-
-    # ---- 1. design runs: the laws on the model --------------------------------------------------
+def _design_runs(ctx, quick, ncpu):
+        # ---- 1. design runs: the laws on the model --------------------------------------------------
     r = ctx.tlc("MC_Query", "MC_Query.cfg", workers=ncpu, coverage=True, env=JAVA_ENV, timeout=900,
                 label="laws on all annotation trees <= 4 nodes")
     ctx.note("law_trees_checked", r.distinct)
@@ -815,6 +795,34 @@ def run(ctx):
     for cfg, inv in [("MC_QueryText_vac_acc.cfg", "NeverAccepts"), ("MC_QueryText_vac_unb.cfg", "NeverUnbalanced")]:
         _expect_violation(ctx, cfg, inv, "vacuity: %s must be violated" % inv, workers=2, timeout=300)
     ctx.note("model_of_code_parser_violates_UnbalancedRejected", True)
+
+
+
+def run(ctx):
+    quick = ctx.quick
+    ncpu = min(16, os.cpu_count() or 4)
+    f = facts.load(SCHEMA_VERSION)
+    import hed  # noqa  (imported once in the parent, workers are forked)
+    _schema()
+    ctx.rule = ("cases = (annotation tree x query) pairs: every tree with <= N nodes over {p-child ra, p-child rb, unrelated c, "
+                "the parent p, value tag v/x, group} x the query universe of MC_Query.tla (all queries with <= 1 operator "
+                "over 12 atoms and 3 wildcards, selected depth-2/3 shapes), concretised with real 8.3.0 tag families "
+                "(TLC-validated) in short/long/intermediate spelling; plus seeded random annotations (<= 12 nodes, depth <= 4) "
+                "x (A, B, C) law tuples over the real vocabulary judged by TLC in trace mode; plus every lexeme string "
+                "<= M tokens and random grammar texts with damaged brackets for the parser.  distinct = abstract "
+                "(tree, query) pair; non-trivial = the model says the query matches")
+    ctx.exhaustive = True
+    ctx.assumptions += [
+        "annotations are built from schema tags of HED 8.3.0 (no unknown tags, no definitions); empty groups included",
+        "completeness of && (it matches whenever both operands match via distinct tags) is NOT claimed by the "
+        "statement; disagreements there and on [ ], { }, {:}, ?, ~ are reported as spec drift",
+        "query texts are ASCII",
+    ]
+
+    if os.environ.get("VERIF_C15_SKIP_DESIGN"):      # development aid (mutation testing): the design runs do not touch /repo
+        ctx.note("design_runs", "SKIPPED by VERIF_C15_SKIP_DESIGN")
+    else:
+        _design_runs(ctx, quick, ncpu)
 
     # ---- 3. families: real tags for the abstract vocabulary, validated by TLC -------------------
     want = 8 if quick else 40
